@@ -38,9 +38,14 @@ def run(ctx):
         fb = ctx.try_facts("bare")
         if fb is not None:
             check_consume(ctx, fb, "bare", floor=6)
+    from props import c17
     for cfg, fx in fxs.items():
         check_consume(ctx, fx, cfg, floor=8)
         check_runtime(ctx, fx, cfg)
+        # R18.4 detach cannot be blocked by a join in progress on any runtime: a join takes the runtime handle out of the
+        # shared slot and releases the slot's lock before it waits (smol's detach takes the same lock synchronously) —
+        # the join protocol of C17, checked per runtime
+        c17.check_join(ctx, fx, cfg, "R18.4")
     check_siblings(ctx, fxs)
     return core.finish(ctx)
 
